@@ -387,6 +387,24 @@ func runEpoch(seed int64, epoch, ng, procs, nk, cap0 int, closeMode string, roun
 	if force {
 		f = 1
 	}
+	// a forced Close right after the table grew: the nodes still sitting in buckets of the old table (not migrated yet) must
+	// be finalised like all others
+	var gst *bulkStat
+	var ghs []*cache.Handle
+	if closeMode == "force-alone" && ws[0].r.Intn(2) == 0 {
+		gst = &bulkStat{}
+		n := 520 + ws[0].r.Intn(700)
+		for i := 0; i < n; i++ {
+			b := &bval{st: gst}
+			h := c.Get(1, uint64(1)<<50|uint64(i), func() (int, cache.Value) {
+				atomic.AddInt64(&gst.constructed, 1)
+				return bulkCharge, b
+			})
+			if h != nil {
+				ghs = append(ghs, h)
+			}
+		}
+	}
 	tr.Emit(vt.Ev{"ev": "close-begin", "force": f})
 	close(start)
 	if overlap {
@@ -394,6 +412,13 @@ func runEpoch(seed int64, epoch, ng, procs, nk, cap0 int, closeMode string, roun
 	}
 	c.Close(force)
 	tr.Emit(vt.Ev{"ev": "close-end", "force": f})
+	if gst != nil {
+		tr.Emit(vt.Ev{"ev": "growclose", "keys": len(ghs), "constructed": atomic.LoadInt64(&gst.constructed),
+			"finalized": atomic.LoadInt64(&gst.finalized), "dup": atomic.LoadInt64(&gst.dup)})
+		for _, h := range ghs {
+			h.Release()
+		}
+	}
 	wg.Wait()
 	// after Close: every call is a no-op, handles are still given back
 	for _, w := range ws {
